@@ -2150,6 +2150,105 @@ def r13_cursor_in_buffer(run):
     v.flush()
 
 
+# ---------------------------------------------------------------------------
+# R14 a delimited sub-reader runs with its parent's chunk size (added after
+# seeded change s7-c14-1)
+# ---------------------------------------------------------------------------
+# "every buffer size ... including on nested delimited sub-readers": what
+# peek() may return, how far a sub-reader reads ahead, and the [1, chunk_size]
+# delimiter-length contract of nested read_until()/delimit() calls all depend on
+# `_chunk_size`.  A reader that builds another reader of its own class
+# (`type(self)(...)` / `self.__class__(...)` / the class by name - delimit()) has
+# to hand its own `self._chunk_size` to the constructor parameter that
+# __init__ stores in `_chunk_size` (found by def-use, positionally or by
+# keyword, directly or through a local bound to it).  Leaving the parameter out
+# (the 32 KiB default), None or a constant is a violation: with
+# BufferedReader(read, n, chunk_size=2), delimit(b'--').peek(-1) returns more
+# than 2 bytes where the flat cursor gives 2.  Arithmetic on the parent's size is
+# an unknown idiom.
+
+def _chunk_param(rd):
+    init = rd.methods.get('__init__')
+    if init is None:
+        raise AnchorError('%s.__init__ not found' % rd.qual)
+    ps = [a for a in init.params() if a != 'self']
+    srcs = []
+    for n in walk_self(init.node):
+        if isinstance(n, (ast.Assign, ast.AnnAssign)) and n.value is not None:
+            tgts = n.targets if isinstance(n, ast.Assign) else [n.target]
+            if any(dotted(t) == CHUNK for t in tgts):
+                srcs.append(n)
+    if len(srcs) != 1:
+        raise AnchorError('%s.__init__: expected one assignment of %s, found %d' % (rd.qual, CHUNK, len(srcs)))
+    used = [x.id for x in ast.walk(srcs[0].value) if isinstance(x, ast.Name) and x.id in ps]
+    if len(set(used)) != 1:
+        raise UnknownIdiom('%s.__init__: %s is computed from %s' % (rd.qual, CHUNK, sorted(set(used)) or 'no parameter'))
+    return init, ps, used[0]
+
+
+def _is_own_class(p, f, rd, e):
+    if isinstance(e, ast.Call) and isinstance(e.func, ast.Name) and e.func.id == 'type' and len(e.args) == 1 and dotted(e.args[0]) == 'self':
+        return True
+    if dotted(e) == 'self.__class__':
+        return True
+    if isinstance(e, ast.Name):
+        binds = [n.value for n in walk_self(f.node) if isinstance(n, ast.Assign) and len(n.targets) == 1 and dotted(n.targets[0]) == e.id]
+        if len(binds) == 1:
+            return _is_own_class(p, f, rd, binds[0])
+    if isinstance(e, (ast.Name, ast.Attribute)):
+        return p.resolve_expr(f.module, e, f) == rd.qual
+    return False
+
+
+def r14_subreader_chunk_size(run):
+    p = run.project
+    n_sites = 0
+    for qual in (SYNC, ASYNC):
+        rd = Reader(p, qual)
+        init, ps, cparam = _chunk_param(rd)
+        run.use(init)
+        sites = 0
+        for name, f in sorted(rd.methods.items()):
+            if f is init:
+                continue
+            for c in walk_self(f.node):
+                if not (isinstance(c, ast.Call) and _is_own_class(p, f, rd, c.func)):
+                    continue
+                run.use(f)
+                sites += 1
+                if any(isinstance(a, ast.Starred) for a in c.args) or any(k.arg is None for k in c.keywords):
+                    raise UnknownIdiom('%s: %s' % (f.qual, short(c, 80)))
+                given = dict(zip(ps, c.args))
+                given.update({k.arg: k.value for k in c.keywords})
+                arg = given.get(cparam)
+                what = '%s: a reader built by a reader (delimited sub-reader) is constructed with its parent\'s chunk size: the `%s` ' \
+                       'argument is %s' % (qual.split('.')[-2] + '.' + name, cparam, CHUNK)
+                rw = 'BufferedReader(source, chunk_size=2).delimit(b"--").peek(-1) returns more than 2 bytes (the flat cursor gives 2); a nested ' \
+                     'delimiter longer than the parent\'s chunk is accepted'
+                verdict = None
+                a = arg
+                if isinstance(a, ast.Name):
+                    binds = [n.value for n in walk_self(f.node) if isinstance(n, ast.Assign) and len(n.targets) == 1 and dotted(n.targets[0]) == a.id]
+                    if len(binds) == 1 and a.id not in f.params():
+                        a = binds[0]
+                if a is None:
+                    verdict = False                  # left out: the constructor's default
+                elif dotted(a) == CHUNK:
+                    verdict = True
+                elif isinstance(a, ast.Constant):
+                    verdict = False                  # None / a number: not the parent's
+                elif isinstance(a, ast.Name) and a.id not in f.params() and a.id in f.module.consts:
+                    verdict = False                  # a module constant (DEFAULT_CHUNK_SIZE)
+                if verdict is None:
+                    raise UnknownIdiom('%s: chunk size of the sub-reader is %s' % (f.qual, short(arg, 60)))
+                run.check(verdict, what, f, c, where=f.loc(c), runtime_witness=rw,
+                          witness=None if verdict else ['%s = %s' % (cparam, 'not passed (the constructor default)' if arg is None else short(arg, 60))])
+        if not sites:
+            raise AnchorError('%s: no method constructs a sub-reader of its own class (delimit)' % qual)
+        n_sites += sites
+    run.extra['c14_subreader_sites'] = n_sites
+
+
 def check(run):
     run.assume('C14: only falcon/util/reader.py and falcon/asgi/reader.py are decided; falcon/cyutil/reader.pyx (the compiled twin) is not analysed')
     run.extra['twin_drift_note'] = 'falcon/cyutil/reader.pyx is a hand-maintained Cython twin of falcon/util/reader.py; not parsed, not compared'
@@ -2166,3 +2265,4 @@ def check(run):
     run.rule('R11', r11_min_chunk, 'async reader: every chunk of the normalising source iterator but the last covers the one-chunk look-ahead of the delimiter search', floor=3)
     run.rule('R12', r12_size_cap, 'sync reader: a read with a non-negative size returns at most `size` bytes (per-method contracts)', floor=10)
     run.rule('R13', r13_cursor_in_buffer, 'sync reader: 0 <= _buffer_pos <= _buffer_len on every acyclic path (a cursor stored after a refill is clamped to what was delivered)', floor=4)
+    run.rule('R14', r14_subreader_chunk_size, 'both readers: a delimited sub-reader is constructed with the parent reader\'s chunk size', floor=2)
